@@ -1049,6 +1049,45 @@ func ptHasBlock(ts []ptok) bool {
 	return false
 }
 
+var (
+	ptPoolNum = [][]ptok{
+		{ptSym("a")}, {ptSym("b")}, {ptSym("c")}, {ptSym("d")}, {ptInt(1)}, {ptInt(2)}, {ptInt(3)}, {ptInt(-1)},
+		{ptPath("h.k")}, {ptCall("tr", ptInt(2))}, {ptCall("tr", ptSym("b"))}, {ptBlock(ptSym("a"), ptOp("-"), ptInt(1))},
+	}
+	ptPoolBool = [][]ptok{
+		{ptSym("p")}, {ptSym("q")}, {ptBool(true)}, {ptCall("tr", ptBool(false))}, {ptCall("tr", ptBool(true))},
+		{ptBlock(ptSym("p"), ptOp("or"), ptSym("q"))},
+	}
+	ptPoolLvalue = [][]ptok{{ptSym("a")}, {ptSym("b")}, {ptSym("c")}, {ptSym("d")}, {ptPath("h.x")}}
+)
+
+// ptTypedAtom chooses the operand at position i: in two of three cases one that fits the operators
+// next to it (so that more blocks evaluate to a value), otherwise any operand form.
+func ptTypedAtom(pat []ptPel, i int, r *rng) []ptok {
+	if r.intn(3) == 0 {
+		return pick(r, ptPoolAny)
+	}
+	left, right := "", ""
+	if i > 0 {
+		left = pat[i-1].op
+		if pat[i-1].kind == "not" {
+			left = "not"
+		}
+	}
+	if i+1 < len(pat) {
+		right = pat[i+1].op
+	}
+	isAssign := func(o string) bool { return o == "=" || o == ":=" || o == "+=" || o == "-=" }
+	isBool := func(o string) bool { return o == "and" || o == "or" || o == "&&" || o == "||" || o == "not" }
+	switch {
+	case isAssign(right) || right == "++" || right == "--":
+		return pick(r, ptPoolLvalue)
+	case isBool(left) || isBool(right):
+		return pick(r, ptPoolBool)
+	}
+	return pick(r, ptPoolNum)
+}
+
 func ptInstantiate1(pat []ptPel, r *rng) []ptok {
 	out := []ptok{}
 	atomStart := 0
@@ -1066,7 +1105,7 @@ func ptInstantiate1(pat []ptPel, r *rng) []ptok {
 			case "dot":
 				out = append(out, pick(r, ptPoolFielded)...)
 			default:
-				out = append(out, pick(r, ptPoolAny)...)
+				out = append(out, ptTypedAtom(pat, i, r)...)
 			}
 		case "not":
 			out = append(out, ptOp("not"))
@@ -1510,7 +1549,7 @@ func init() {
 
 		// (f) go-style for headers
 		inits := [][]ptok{{ptSym("i"), ptOp(":="), ptInt(0)}, {ptSym("i"), ptOp("="), ptSym("c"), ptOp("-"), ptInt(2)}, {}, {ptSym("i"), ptOp(","), ptSym("j"), ptOp("="), ptInt(0), ptOp(","), ptInt(3)}}
-		tests := [][]ptok{{ptSym("i"), ptOp("<"), ptInt(3)}, {ptSym("i"), ptOp("<"), ptSym("c"), ptOp("+"), ptInt(1), ptOp("and"), ptSym("p")}, {ptSym("i"), ptOp("*"), ptInt(2), ptOp("<="), ptSym("v"), ptIdx(ptInt(0)), ptOp("-"), ptInt(6)}, {ptOp("not"), ptSym("i"), ptOp(">="), ptInt(2)}}
+		tests := [][]ptok{{ptSym("i"), ptOp("<"), ptInt(3)}, {ptSym("i"), ptOp("<"), ptSym("c"), ptOp("+"), ptInt(1), ptOp("and"), ptSym("p")}, {ptSym("i"), ptOp("*"), ptInt(2), ptOp("<="), ptSym("v"), ptIdx(ptInt(0)), ptOp("-"), ptInt(6)}, {ptOp("not"), ptSym("q"), ptOp("and"), ptSym("i"), ptOp("<"), ptInt(2)}}
 		posts := [][]ptok{{ptSym("i"), ptOp("++")}, {ptSym("i"), ptOp("+="), ptInt(1)}, {ptSym("i"), ptOp("="), ptSym("i"), ptOp("+"), ptInt(2)}}
 		fbodies := [][]ptok{
 			{ptSym("a"), ptOp("+="), ptSym("i")},
